@@ -47,3 +47,15 @@ package ast
 //@   modifies everything()
 //@   exits any
 //@   assert_before_call ParseUint: arg1 == 16 && arg2 == 64 && len(arg0) <= 16
+
+// Whatever the shape of NewNumber: digits are only ever read in base 10 or 16
+// (Lua has no octal or binary numerals and no digit separators; base 0 would
+// make strconv accept Go's own literal syntax).
+//@ func NewNumber
+//@   prop C12
+//@   arith int
+//@   norte
+//@   nocover
+//@   modifies everything()
+//@   exits any
+//@   assert_before_call ParseUint: arg1 == 10 || arg1 == 16
